@@ -12,7 +12,7 @@ from .pool import Pool
 
 PROPERTY = "C12"
 LEVEL = "exploration"
-ROUTES = ["json", "json-instance", "state", "save"]
+ROUTES = ["json", "json-keepid", "json-instance", "state", "save"]
 
 
 def run(ctx):
@@ -53,8 +53,8 @@ def run(ctx):
         "evaluations": done,
         "distinct_nontrivial": len(sigs),
         "rule": "every description within (N,k) (all parameter kinds, sharing, cycles, task outputs, meta True/False/None, pre/init tasks) x routes "
-                "{objects list of params.json -> fromParameters config mode / instance mode, state_dict -> from_state_dict, save -> load}; reloaded graph "
-                "extracted from the real objects and compared (canonical relabelling) with the description, identifier recomputed; plus real "
+                "{objects list of params.json -> fromParameters config mode (stored identifiers discarded / kept) / instance mode, state_dict -> from_state_dict, save -> load}; reloaded graph "
+                "extracted from the real objects and compared (canonical relabelling) with the description, full and raw identifiers of every reloaded node and of a fresh configuration embedding the reloaded root compared with the originals; plus real "
                 "GENERATE_ONLY params.json files read back by run() with tags; distinct_nontrivial = distinct canonical signatures",
         "samples": clip_samples([descs[7], descs[len(descs) // 2]]),
         "exhaustive": not capped, "descriptions": len(descs), "routes": ROUTES + ["real params.json -> run()"], "real_params_cases": len(REAL_CASES), "real_run_descriptions": nreal,
